@@ -47,8 +47,9 @@ CHECK_DEADLOCK FALSE
 
 def _run(args):
     from ..drive import evo
-    algo, family, ops, nslots, seed, shared_hp = args
-    return evo.run_script(algo, family, ops, nslots=nslots, seed=seed, shared_hp=shared_hp)
+    algo, family, ops, nslots, seed, shared_hp = args[:6]
+    wrapped = args[6] if len(args) > 6 else False
+    return evo.run_script(algo, family, ops, nslots=nslots, seed=seed, shared_hp=shared_hp, wrapped=wrapped)
 
 
 def run_scripts(jobs, workers=12):
